@@ -2,6 +2,7 @@
 //! walker, instruction decoder, simulated CPU state, the synchronous-signal seam).
 pub mod cpu;
 pub mod decode;
+pub mod desc;
 pub mod driver;
 pub mod hwwalk;
 pub mod physmem;
